@@ -448,7 +448,7 @@ def two_session_family(ctx, res):
 # ------------------------------------------------------------------------------------------------
 # one session, SEVERAL transfers under way (each on a data connection of its own), one ABOR: every one of them stops
 # ------------------------------------------------------------------------------------------------
-async def _several_transfers_case(loop, verbs, salt):
+async def _several_transfers_case(loop, verbs, salt, relogin=False):
     big = content(4096)
     wd = W.World(loop, S.USERS_ANON, server_kwargs={"block_size": BS})
     await wd.start()
@@ -477,6 +477,10 @@ async def _several_transfers_case(loop, verbs, salt):
             await loop.settle()
             datas.append((verb, dr, dw, sp))
         out["marks"] = [int(x) for x, _ in c.replies[n0:] if x == "150"]
+        if relogin:
+            # the same peer logs in again while its transfers run: they are still its transfers
+            c.send_raw(b"USER bob\r\n")
+            await loop.settle()
         na = len(c.replies)
         c.send_raw(b"ABOR\r\n")
         await loop.settle()
@@ -524,7 +528,7 @@ async def _several_transfers_case(loop, verbs, salt):
 
 def _several_job(args):
     try:
-        return simnet.run(_several_transfers_case, args[0], args[1], task_salt=args[1], wall_limit=60)
+        return simnet.run(_several_transfers_case, args[0], args[1], bool(args[2]) if len(args) > 2 else False, task_salt=args[1], wall_limit=60)
     except BaseException as e:  # noqa
         return "HARNESS-ERROR %s: %s" % (type(e).__name__, e)
 
@@ -543,12 +547,13 @@ def _several_judge(inp, o):
 
 
 def several_transfers_family(ctx, res):
-    for verbs in (["RETR", "RETR"], ["RETR", "STOR"], ["STOR", "RETR"], ["STOR", "STOR"], ["RETR", "RETR", "RETR"]):
+    for verbs, relogin in ((["RETR", "RETR"], False), (["RETR", "STOR"], False), (["STOR", "RETR"], False), (["STOR", "STOR"], False), (["RETR", "RETR", "RETR"], False),
+                           (["RETR"], True), (["STOR"], True), (["RETR", "STOR"], True)):
         for salt in ((0,) if not ctx.thorough() else (0, 1, 5)):
             res.cases += 1
             res.count("several_transfers_one_abor")
-            inp = {"kind": "several-transfers", "transfers": verbs, "task_salt": salt}
-            o = _several_job((verbs, salt))
+            inp = {"kind": "several-transfers", "transfers": verbs, "task_salt": salt, "second_login_before_abor": relogin}
+            o = _several_job((verbs, salt, relogin))
             if isinstance(o, str):
                 res.disagreements.append({"correspondence": "C14 several-transfers harness", "input": inp, "impl": o})
                 continue
@@ -556,7 +561,7 @@ def several_transfers_family(ctx, res):
             f = _several_judge(inp, o)
             if f:
                 res.oracle_failures.append(f)
-            if getattr(ctx, "model_ok", False) and len(o["marks"]) == len(verbs):
+            if getattr(ctx, "model_ok", False) and len(o["marks"]) == len(verbs) and not relogin:
                 # every worker is held inside its body (a stalled reader / a writer that pauses): Model.Abort.aborMany
                 m = drive(["abor many %s %s" % (verbs[0].lower(), " ".join("body" for _ in verbs))])[0]
                 res.lines += 1
@@ -778,7 +783,7 @@ def replay(ctx, doc):
         print(o)
         return isinstance(o, str) or o["a_replies"] != [226] or o["b_replies"] != [150, 226] or not o["b_ok"]
     if inp.get("kind") == "several-transfers":
-        o = _several_job((inp["transfers"], inp.get("task_salt", 0)))
+        o = _several_job((inp["transfers"], inp.get("task_salt", 0), inp.get("second_login_before_abor", False)))
         print(o)
         f = _several_judge(inp, o)
         print(f)
